@@ -18,6 +18,7 @@
 #include <precomp.hpp>
 #include <fix8/f8includes.hpp>
 #include "pj.hpp"
+#include <thread>
 #include <sanitizer/asan_interface.h>
 #include <sys/mman.h>
 #include <sys/wait.h>
@@ -293,7 +294,16 @@ static void cmd_logts(const std::vector<std::string>& t)
 	const bool gm = t[5] == "1";
 	const Tickval tv(static_cast<time_t>(day * 86400LL + sec), static_cast<long>(ns));
 	std::string out;
-	GetTimeAsStringMS(out, &tv, dp, gm);
+	// every other rendering happens as the first call of a new thread (loggers render on their own threads; a
+	// per-thread cache in the renderer must not depend on what the thread rendered before)
+	static unsigned calls = 0;
+	if (++calls & 1)
+	{
+		std::thread th([&]() { GetTimeAsStringMS(out, &tv, dp, gm); });
+		th.join();
+	}
+	else
+		GetTimeAsStringMS(out, &tv, dp, gm);
 	pj::Ev("Log").i("day", day).i("sec", sec).i("ns", ns).i("dp", dp).b("gm", gm).s("text", out).emit();
 }
 
